@@ -326,8 +326,11 @@ def brute_matchings(rings, db, pyr, cap=20000):
     db, pyr = set(db), set(pyr)
     out = []
 
+    budget = [200000]
+
     def rec(i, matched, chosen):
-        if len(out) >= cap:
+        budget[0] -= 1
+        if budget[0] < 0 or len(out) >= cap:
             return
         if i == len(order):
             out.append(frozenset(chosen))
@@ -342,6 +345,8 @@ def brute_matchings(rings, db, pyr, cap=20000):
             if m in idx and idx[m] > i and m not in matched and m not in db:
                 rec(i + 1, matched | {n, m}, chosen + [frozenset((n, m))])
     rec(0, frozenset(), [])
+    if budget[0] < 0:
+        return {('gave-up', i) for i in range(cap)}       # treated like a capped enumeration by the callers
     return set(out)
 
 
